@@ -19,6 +19,7 @@ def run(res, work, tier, seed):
         #      nothing, and the pass that sees the root closed unregisters it (TLC shows it in 46 steps); C08's own invariants are checked
         vlib.tallycore(work, res, "C08: gauge + subscope, loop (3 ticks), Close", deadlock=True, drop_invariants=("GaugeFresh",), **dict(BASE, Script="ScriptC08g", MaxTicks=3))
     vlib.run_core_family(res, work, "c08", tier, seed, parts=12, clauses=CLAUSES, timeout=3400)
+    free(res, work, tier, seed)
     from props import corestep
     corestep.run(res, work, tier, seed, "C08")   # step-level replay of the st-c08 scenarios through TallyCore.tla (drift, not a verdict)
     res.rule = ("executions of the real root scope under the controlled scheduler with the real report loop goroutine (ticks handed out by the scheduler, so Close can arrive "
@@ -29,3 +30,23 @@ def run(res, work, tier, seed):
         "'the reporting goroutine has ended' is observed as: the loop goroutine has passed its exit hook (after which it only runs its deferred wg.Done / ticker.Stop)",
         "a slow reporter is modelled by parking the calling goroutine at the reporter call",
     ]
+
+
+def free(res, work, tier, seed):
+    """Free-running: create a root with an interval, record, Close at once (the scheduler-driven scenarios always let the
+    reporting goroutine reach its first hook first); a goroutine dump taken when Close returns must not show the loop."""
+    import os
+    out = os.path.join(work, "free")
+    os.makedirs(out)
+    vlib.stage_specs(out)
+    vlib.run_vh(["c08free", "-out", out, "-seed", seed, "-tier", tier], timeout=1800)
+    meta = vlib.read_meta(out)
+    trace = os.path.join(out, "trace.ndjson")
+    fails, r = vlib.tlc_trace(out, "TallyObsTrace.tla", "TallyObsTrace.cfg", trace, meta["events"], timeout=3000, boundary='"e":"scn"')
+    if r["violated"] or not r["consumed"]:
+        raise vlib.Infra("TallyObsTrace did not consume the c08free trace: %s\n%s" % (r["violated"], r["out"][-2000:]))
+    res.add_trace_run("TallyObsTrace create / record / Close at once (free-running)", r, meta["cases"], meta["events"])
+    res.states += r["distinct"]; res.transitions += r["generated"]
+    lines = vlib.read_lines(trace)
+    res.judge_fails([f for f in fails if f[1] in CLAUSES], lines, lambda ln: vlib.case_context(lines, max(ln, 1), lambda s: '"e":"scn"' in s, max_lines=30))
+    res.evaluations += meta["evals"]
